@@ -4,6 +4,7 @@
   `houseDepositO` (lean/Sge/Core/Chain.lean) for all inputs.
 -/
 import Sge.Gen.Kernels
+import SgeProofs.Lemmas.KernelsTie
 import SgeProofs.Properties.C17
 namespace Sge.KernelsTie
 open Sge Sge.Core Sge.Gen.Kernels
@@ -13,7 +14,7 @@ theorem krn_tie_HouseFee (fee : Dec) (amount : Int) :
     house_Deposit_CalcHouseParticipationFeeAmount amount fee = (fee.mulInt amount).roundInt := by
   first
     | rfl
-    | (unfold house_Deposit_CalcHouseParticipationFeeAmount; rfl)
+    | (unfold house_Deposit_CalcHouseParticipationFeeAmount; krn_close)
 
 /-- Handler level: the participation stored by a successful `MsgDeposit` of the model carries exactly the fee the
     translated Go kernel computes, and liquidity = amount − that fee. -/
